@@ -115,6 +115,28 @@ CHECKS = {
              "(a cached field) is listed as not decided. Byte equality of the entry points for arbitrary Write impls beyond R3/R6 "
              "is not decided. The u16 addition in write_header is an assumed precondition (within DNS size limits).",
         ref="DESIGN.md section 4 C04"),
+    "C10": dict(
+        technique="wire-layout extraction from MIR (symbolic read offsets / emitted byte sources) compared with an RFC schema table",
+        text="For each of the 41 record types the consume sequence of parse (integer reads with width, byte order and offset "
+             "relative to the cursor, byte reads, sub-parsers, raw / rest slices, repeats, destination fields) and the emit "
+             "sequence of write_to (widths, byte order, source fields) are extracted from the numeric analysis and each compared "
+             "with the RFC layout in tables/rdata_schema.tsv, so a symmetric mistake is caught; fixed-offset reads must be "
+             "contiguous; the structural rejections (LOC version 0 on every Ok path, SVCB keys strictly increasing, NSEC windows "
+             "strictly increasing) are entailed by the domain at the accepting site. Type codes are C18-R1.",
+        note=TB + " tables/rdata_schema.tsv transcribes the RFCs. IPSECKEY is compared per gateway type (tag written = value "
+             "tested); OPT without the header slots it borrows; TXT as rep{cstr}. Field semantics (e.g. LOC size encoding) and "
+             "RFC test vectors are not decided.",
+        ref="DESIGN.md section 4 C10"),
+    "C02": dict(
+        technique="wire-layout extraction from MIR: parse consume sequence vs write_to emit sequence (mirror), plus mask constants",
+        text="For every WireFormat impl the sequence of wire elements parse consumes equals, item by item (kind, width, byte order, "
+             "fixed offsets contiguous, destination field = source field), the sequence write_to emits; the resource-record "
+             "envelope is assembled from ResourceRecord::parse and RData::parse; IPSECKEY's tag constants written equal the values "
+             "tested; the cache-flush / unicast-response bit is written with the mask that parse tests and strips. This is the "
+             "structural necessary condition of the round trip, for all packets.",
+        note=TB + " Does not decide equality of values for all packets (a symmetric mistake is C10's job; SVCB map order, TXT "
+             "cached size, empty TXT are value-level). Name is covered by C06/C03, the RData dispatch by C18-R3.",
+        ref="DESIGN.md section 4 C02"),
 }
 
 NA = {
